@@ -228,6 +228,12 @@ def binding_selftest(rep, topo, ctx):
     bad3[k]['l'][0] = 'timeout' if bad3[k]['l'][0] != 'timeout' else 'step'
     res, acc, reached = validate_traces(topo, [good, bad1, bad2, bad3])
     rep.add_tlc(f'{topo.name}/TraceOFP/selftest', res, 'binding self-test: 1 genuine + 3 corrupted traces')
+    if 0 not in acc:
+        # the code under test itself has drifted from the specification: that is a finding about the code (reported as
+        # drift), not a failure of the machinery; the corrupted variants prove nothing in that case
+        rep.drift_note(f'{topo.name}: the genuine recorded execution of the binding self-test is not a behaviour of the '
+                       f'specification ({reached.get(0)} of {len(good)} events matched)')
+        return
     if acc != {0}:
         raise common.MachineryError(f'trace-validation self-test failed: accepted {sorted(acc)} of [genuine, corrupted field, '
                                     f'dropped event, changed label]; reached {reached}')
